@@ -60,8 +60,16 @@ theorem lexReg_plain (x : List Char) (t : Token) (h : lexReg x = .ok t) : Plain 
     · cases h
   · cases h
 
+theorem takeWhile_len {α : Type} (p : α → Bool) : ∀ l : List α, (l.takeWhile p).length ≤ l.length
+  | [] => Nat.le_refl _
+  | x :: xs => by
+    rw [List.takeWhile_cons]
+    split
+    · simp only [List.length_cons]; have := takeWhile_len p xs; omega
+    · simp
+
 theorem spanW_len (rest : List Char) : (spanW rest).1.length ≤ rest.length := by
-  unfold spanW; exact List.length_takeWhile_le _ _
+  unfold spanW; exact takeWhile_len _ _
 
 theorem plain_of_simple (t : Token) (h : t = .colon ∨ t = .comma ∨ t = .comment ∨ ∃ w, t = .directive w) : Plain t := by
   rcases h with rfl | rfl | rfl | ⟨w, rfl⟩ <;>
@@ -122,7 +130,9 @@ theorem lexOne_facts (cs : List Char) (t : Token) (n : Nat) (h : lexOne cs = ⟨
       split at h
       · injection h with hres _
         exact .plain (lexSignedHex_plain _ _ hres)
-      · try dsimp only at h
+      · rename_i d r _
+        try dsimp only at h
+        have hlen' := spanW_len (d :: r)
         split at h
         · injection h with hres _
           exact .plain (lexUnsignedHex_plain _ _ hres)
@@ -130,7 +140,7 @@ theorem lexOne_facts (cs : List Char) (t : Token) (n : Nat) (h : lexOne cs = ⟨
           injection hres with hres
           subst hres
           exact .ident _ _ (by rw [← hn]; simp only [List.length_cons]; omega)
-            (by rw [← hn]; have := spanW_len (_ :: _); simp only [List.length_cons] at this ⊢; omega)
+            (by rw [← hn]; simp only [List.length_cons] at hlen' ⊢; omega)
       · injection h with hres hn
         injection hres with hres
         subst hres
@@ -157,5 +167,97 @@ theorem lexOne_facts (cs : List Char) (t : Token) (n : Nat) (h : lexOne cs = ⟨
         (by rw [← hn]; simp only [List.length_cons]; omega)
     rw [if_neg h13] at h
     cases h
+
+/-! ### the whole lexer -/
+
+/-- what the lexer guarantees about every token it emits for the text `src` -/
+structure TokFact (src : List Char) (t : SpTok) : Prop where
+  lo : t.start ≤ t.stop
+  hi : t.stop ≤ blen src
+  str : ∀ s, t.tok = .string s → blen s < 65535
+  lab : ∀ s, t.tok = .ident (.label s) → s.length ≤ t.stop - t.start
+  nl : t.tok = .newline → t.start < t.stop ∧ (t.stop - 1) ∈ nlFrom 0 src
+
+theorem length_le_blen : ∀ l : List Char, l.length ≤ blen l
+  | [] => Nat.le_refl _
+  | c :: cs => by
+    have := length_le_blen cs
+    have := c.utf8Size_pos
+    simp only [List.length_cons, blen]; omega
+
+theorem lexed_eta (l : Lexed) : l = ⟨l.res, l.len⟩ := rfl
+
+theorem lexAll_facts (src : List Char) : ∀ (fuel : Nat) (cs : List Char) (off : Nat) (acc : List SpTok) (pre : List Char) (ts : List SpTok),
+    src = pre ++ cs → off = blen pre → (∀ t ∈ acc, TokFact src t ∧ t.stop ≤ off) → acc.Pairwise (fun a b => b.stop ≤ a.start) →
+    lexAll fuel cs off acc = .ok ts →
+    (∀ t ∈ ts, TokFact src t) ∧ ts.Pairwise (fun a b => a.stop ≤ b.start) := by
+  intro fuel
+  induction fuel with
+  | zero =>
+    intro cs off acc pre ts _ _ hacc hp h
+    simp only [lexAll] at h; cases h
+    exact ⟨fun t ht => (hacc t (List.mem_reverse.mp ht)).1, List.pairwise_reverse.mpr hp⟩
+  | succ fuel ih =>
+    intro cs off acc pre ts hsrc hoff hacc hp h
+    cases cs with
+    | nil =>
+      simp only [lexAll] at h; cases h
+      exact ⟨fun t ht => (hacc t (List.mem_reverse.mp ht)).1, List.pairwise_reverse.mpr hp⟩
+    | cons c cs =>
+      unfold lexAll at h
+      by_cases hws : c = ' ' ∨ c = '\t'
+      · rw [if_pos hws] at h
+        have h1 : c.utf8Size = 1 := by rcases hws with rfl | rfl <;> decide
+        refine ih cs (off + 1) acc (pre ++ [c]) ts (by rw [hsrc]; simp) ?_ ?_ hp h
+        · rw [blen_append, hoff]; simp [blen, h1]
+        · intro t ht; have := hacc t ht; exact ⟨this.1, by omega⟩
+      · rw [if_neg hws] at h
+        dsimp only at h
+        have htd := blen_take_drop (c :: cs) (lexOne (c :: cs)).len
+        have hsplit : src = (pre ++ (c :: cs).take (lexOne (c :: cs)).len) ++ (c :: cs).drop (lexOne (c :: cs)).len := by
+          rw [hsrc, List.append_assoc, List.take_append_drop]
+        have hbs : blen src = off + blen (c :: cs) := by rw [hsrc, blen_append, hoff]
+        cases hres : (lexOne (c :: cs)).res with
+        | error e => rw [hres] at h; cases h
+        | ok t =>
+          rw [hres] at h
+          dsimp only at h
+          have hone : lexOne (c :: cs) = ⟨.ok t, (lexOne (c :: cs)).len⟩ := by rw [← hres]
+          have hf := lexOne_facts (c :: cs) t _ hone
+          refine ih _ _ _ (pre ++ (c :: cs).take (lexOne (c :: cs)).len) ts hsplit (by rw [blen_append, hoff]) ?_ ?_ h
+          · intro t' ht'
+            rcases List.mem_cons.mp ht' with rfl | ht'
+            · refine ⟨⟨by dsimp only; omega, by dsimp only; omega, fun s hs => hf.str s hs, fun s hs => ?_, fun hs => ?_⟩, Nat.le_refl _⟩
+              · obtain ⟨hl1, hl2⟩ := hf.lab s hs
+                have := length_le_blen ((c :: cs).take (lexOne (c :: cs)).len)
+                rw [List.length_take, Nat.min_eq_left hl2] at this
+                dsimp only; omega
+              · rcases hf.nl hs with ⟨r, hr, hn⟩ | ⟨r, hr, hn⟩
+                · rw [hn, hr]
+                  have h1 : blen (List.take 1 ('\n' :: r)) = 1 := by simp [blen]; decide
+                  dsimp only
+                  rw [h1]
+                  refine ⟨by omega, ?_⟩
+                  rw [hsrc, hr, C22.nlFrom_append]
+                  apply List.mem_append_right
+                  simp [nlFrom, hoff]
+                · rw [hn, hr]
+                  have h1 : blen (List.take 2 ('\r' :: '\n' :: r)) = 2 := by simp [blen]; decide
+                  dsimp only
+                  rw [h1]
+                  refine ⟨by omega, ?_⟩
+                  rw [hsrc, hr, C22.nlFrom_append]
+                  apply List.mem_append_right
+                  have h2 : ('\r' : Char).utf8Size = 1 := by decide
+                  simp [nlFrom, hoff, h2]
+            · have := hacc t' ht'; exact ⟨this.1, by omega⟩
+          · refine List.Pairwise.cons ?_ hp
+            intro b hb; exact (hacc b hb).2
+
+/-- **lexer facts**: every token of `lex src` satisfies `TokFact`, and the token spans are ordered -/
+theorem lex_facts (src : List Char) (ts : List SpTok) (h : lex src = .ok ts) :
+    (∀ t ∈ ts, TokFact src t) ∧ ts.Pairwise (fun a b => a.stop ≤ b.start) := by
+  unfold lex at h
+  exact lexAll_facts src _ src 0 [] [] ts rfl rfl (by intro t ht; cases ht) List.Pairwise.nil h
 
 end Lc3V
